@@ -26,12 +26,14 @@ models/solid_c16.py.  Work items:
 Probes closer than the margin (1e-3 of the joint bounding-box diagonal, plus the band of
 the polyhedral approximation of curved kinds) to an operand's boundary are skipped and
 counted.  Documented refusals (NotImplementedError, "does not support ...") are counted
-as refused.  One violation per item; its signature is <op>:<TypeA>-x-<TypeB>:<tag> where
-the tag is the most specific discrepancy seen (z-dropped: result rebuilt at another
-height; member-missing / nonmember-included; dist-*; aabb-excludes-member;
-z-ignored-distance; z-ignored: containsPoint answers for the infinite footprint column of
-a planar operand - reported only when nothing else is wrong so that it can never hide
-another defect).  VERIF_SEED only rotates the work list.
+as refused.  Signatures are <op>[:lazyX]:<TypeA>-x-<TypeB>:<tag>.  Per item at most one
+violation for each independent class of discrepancy: z-dropped (result rebuilt at another
+height); the first of member-missing / nonmember-included / dist-positive-on-member /
+dist-zero-on-nonmember / aabb-excludes-member / dist-wrong-value; z-ignored-distance
+(distance as if a planar operand's height were ignored); and, only when nothing else is
+wrong, z-ignored (containsPoint answers for the infinite footprint column of a planar
+operand) - so a known height defect of a pair never hides another kind of error.
+VERIF_SEED only rotates the work list.
 """
 
 from __future__ import annotations
@@ -422,10 +424,19 @@ def do_op(item):
             tolv = 1e-5 + oa.band + ob.band
             note("dist-wrong-value", np.abs(o.dist - want) > tolv * (1 + want), "distanceTo(A u B) != min(d(A), d(B))", ("expected", want), ("observed", o.dist))
     if found:
-        # containsPoint ignoring heights comes last: it must never hide another discrepancy
-        order = ["z-dropped", "member-missing", "nonmember-included", "dist-positive-on-member", "dist-zero-on-nonmember", "aabb-excludes-member", "dist-wrong-value", "z-ignored-distance", "z-ignored"]
-        prim = next(t for t in order if t in found)
-        viol(res, f"{pre}:{prim}", f"{desc0}; {int(ok.sum())} probes judged.\n" + "\n".join(found[t] for t in order if t in found), item)
+        # Independent classes of discrepancy are reported separately, so that a known
+        # height defect of a pair can never hide a different kind of error in the same
+        # item: (A) result rebuilt at another height, (B) wrong content / distance /
+        # bounding box, (C) distance ignoring a height; (D) containsPoint answering for
+        # the footprint column is reported only when nothing else is wrong.
+        hard = ["member-missing", "nonmember-included", "dist-positive-on-member", "dist-zero-on-nonmember", "aabb-excludes-member", "dist-wrong-value"]
+        order = ["z-dropped"] + hard + ["z-ignored-distance", "z-ignored"]
+        text = f"{desc0}; {int(ok.sum())} probes judged.\n" + "\n".join(found[t] for t in order if t in found)
+        emit = [t for t in ("z-dropped",) if t in found] + [t for t in hard if t in found][:1] + [t for t in ("z-ignored-distance",) if t in found]
+        if not emit:
+            emit = ["z-ignored"]
+        for t in emit:
+            viol(res, f"{pre}:{t}", text, item)
     return res
 
 
